@@ -35,7 +35,7 @@ func init() {
 		Run: run,
 		Floors: func(t string) map[string]int64 {
 			return map[string]int64{"api.struct": 100, "api.fields": 100, "kind.Point": 8, "kind.MultiPoint": 8, "kind.LineString": 8, "kind.MultiLineString": 8, "kind.Polygon": 8, "kind.*Bounds": 8,
-				"records.compared": 3000, "string.last_column": 50, "string.with_edge_blanks": 200, "ring.unclosed": 200, "ring.unclosed_by_a_hair": 100, "file.empty": 3, "column.string": 100, "column.int": 100, "column.float": 100, "string.at_field_width": 20, "schema.crossed_tags_and_names": 20, "decode.alternating_record_types": 30, "decode.some_records_geometry_only": 60, "box.degenerate": 50, "schema.eleven_byte_names_sharing_ten": 20, "schema.names_longer_than_the_dbf_field": 20, "schema.long_name_cut_inside_a_two_byte_letter": 8, "schema.tag_names_no_column_but_the_field_name_does": 100, "schema.names_the_file_stores_differently": 8, "file.more_than_1000_records": 1}
+				"records.compared": 3000, "string.last_column": 50, "string.with_edge_blanks": 200, "ring.unclosed": 200, "ring.unclosed_by_a_hair": 100, "file.empty": 3, "column.string": 100, "column.int": 100, "column.float": 100, "string.at_field_width": 20, "schema.crossed_tags_and_names": 20, "decode.alternating_record_types": 30, "decode.some_records_geometry_only": 60, "write.encode_and_encodefields_mixed_on_one_encoder": 30, "box.degenerate": 50, "schema.eleven_byte_names_sharing_ten": 20, "schema.names_longer_than_the_dbf_field": 20, "schema.long_name_cut_inside_a_two_byte_letter": 8, "schema.tag_names_no_column_but_the_field_name_does": 100, "schema.names_the_file_stores_differently": 8, "file.more_than_1000_records": 1}
 		},
 	})
 }
@@ -536,8 +536,13 @@ func run(c *core.Ctx, idx int) {
 		if err != nil {
 			panic("harness: cannot create " + base + ": " + err.Error())
 		}
+		// the two write calls mixed on one encoder made from a struct: they share the row counter
+		mixed := structAPI && c.R.Chance(0.3)
+		if mixed && len(recs) >= 2 {
+			c.Count("write.encode_and_encodefields_mixed_on_one_encoder")
+		}
 		for i, rec := range recs {
-			if structAPI {
+			if structAPI && !(mixed && c.R.Chance(0.4)) {
 				v := reflect.New(encT).Elem()
 				v.FieldByName("Shape").Set(reflect.ValueOf(rec.g))
 				for k, col := range cols {
